@@ -219,6 +219,60 @@ theorem directiveOf_unknown (c : Nat) (hc : c ∉ directiveTypes) : directiveOf 
 theorem directiveOf_member (c : Nat) (hc : c ∈ directiveTypes) : directiveOf c = .ok (some c) := by
   rw [directiveOf_eq, if_pos hc]
 
+/-! ## truncated buffers -/
+
+theorem idx_take (d : Bytes) (k i : Nat) (h : i < k) : idx (d.take k) i = idx d i := by
+  simp [idx, h]
+
+/-- a file directive cut to `k` octets: refused (`ValueError`) up to and including the header, and
+    handed to the decoder of the directive octet beyond it -/
+theorem fromRaw_take_directive (d : Bytes) (h : PduHeader) (hu : PduHeader.unpack d = .ok h)
+    (ht : h.pduType = 0) (c : Nat) (hc : idx d h.headerLen = .ok c) (k : Nat) (hk : k ≤ d.length) :
+    fromRaw (d.take k) =
+      if k ≤ h.headerLen then .error .value
+      else directiveOf c >>= fun dir => dispatch dir (d.take k) := by
+  have hlr := C05.C05_header_len_from_raw d h hu
+  have hty := pduType_of_header d h hu
+  have h4 : 4 ≤ d.length := by
+    by_cases h4 : d.length < 4
+    · rw [unpack_short d h4] at hu; cases hu
+    · omega
+  have hhl : 4 ≤ h.headerLen := headerLen_ge h
+  obtain ⟨x0, x1, x2, x3, r, rfl⟩ := exists_cons4 d h4
+  rw [pduType_cons, ht] at hty
+  have e0 : x0.toNat / 16 % 2 = 0 := Except.ok.inj hty
+  rw [headerLenFromRaw_cons4] at hlr
+  have ehl : 4 + 2 * (x3.toNat / 16 % 8 + 1) + (x3.toNat % 8 + 1) = h.headerLen := Except.ok.inj hlr
+  match k, hk with
+  | 0, _ => rw [if_pos (by omega)]; rfl
+  | 1, _ =>
+    rw [if_pos (by omega)]
+    show fromRaw [x0] = _
+    rw [fromRaw_cons, if_neg (by omega), pduDirectiveType_cons, if_neg (by omega), headerLenFromRaw_short _ (by simp)]
+    rfl
+  | 2, _ =>
+    rw [if_pos (by omega)]
+    show fromRaw [x0, x1] = _
+    rw [fromRaw_cons, if_neg (by omega), pduDirectiveType_cons, if_neg (by omega), headerLenFromRaw_short _ (by simp)]
+    rfl
+  | 3, _ =>
+    rw [if_pos (by omega)]
+    show fromRaw [x0, x1, x2] = _
+    rw [fromRaw_cons, if_neg (by omega), pduDirectiveType_cons, if_neg (by omega), headerLenFromRaw_short _ (by simp)]
+    rfl
+  | k + 4, hk =>
+    have et : (x0 :: x1 :: x2 :: x3 :: r).take (k + 4) = x0 :: x1 :: x2 :: x3 :: r.take k := by
+      simp [List.take_succ_cons]
+    have el : (x0 :: x1 :: x2 :: x3 :: r.take k).length = k + 4 := by
+      simp only [List.length_cons, List.length_take] at hk ⊢; omega
+    rw [et, fromRaw_cons, if_neg (by omega), pduDirectiveType_cons, if_neg (by omega), headerLenFromRaw_cons4, ehl]
+    show (if (x0 :: x1 :: x2 :: x3 :: r.take k).length ≤ h.headerLen then _ else _) >>= _ = _
+    rw [el]
+    by_cases hle : k + 4 ≤ h.headerLen
+    · rw [if_pos hle, if_pos hle]; rfl
+    · rw [if_neg hle, if_neg hle, ← et, idx_take _ _ _ (by omega), hc]
+      rfl
+
 /-! ## documented errors only -/
 
 theorem documented_map {α β : Type} (f : α → β) {x : Py α} (h : Documented x) : Documented (f <$> x) := by
